@@ -174,6 +174,7 @@ def run(ctx):
                                                   compression_threshold=-1 if thr is None else thr))
                 reactor = Reactor(conn)
                 got = []
+                kept = []
                 end = None
                 for _ in range(len(pkts) + 3):
                     try:
@@ -182,6 +183,16 @@ def run(ctx):
                         end = ename(e)
                         break
                     got.append((p.id, getattr(p, 'payload', None), type(p) is Packet))
+                    kept.append(p)
+                # a consumer that drains the reader first and looks at the packets afterwards sees the same
+                later = [(q.id, getattr(q, 'payload', None), type(q) is Packet) for q in kept]
+                if later != got:
+                    ctx.violation('packets inspected after draining the reader differ from what each read returned '
+                                  '(an earlier packet object changed when a later one was read)',
+                                  {'threshold': thr, 'encrypted': enc, 'segmentation': sname,
+                                   'at_read': [(i, None if b is None else len(b)) for i, b, _ in got][:8],
+                                   'afterwards': [(i, None if b is None else len(b)) for i, b, _ in later][:8]},
+                                  key={'kind': 'retained-packets', 'threshold': thr, 'written': [(i, len(b)) for i, b in pkts]})
                 # plaintext segments with the same cut positions (CFB8 preserves lengths)
                 psegs, i = [], 0
                 for s in segs:
